@@ -35,6 +35,11 @@ def spec_for(c):
         # an operation under another method next to the pair: counting operations per method is not enough
         paths["/zz-other"] = {"post": {"operationId": "zzOtherPost", "responses": resp("base")}, "delete": {"operationId": "zzOtherDelete", "responses": resp("base")}}
         routes = [("GET", r) for r in routes] + [("POST", "/zz-other"), ("DELETE", "/zz-other")]
+    if pos == "suffix":
+        defs["campaign_" + a] = {"type": "object", "properties": {"n": {"type": "integer"}}}
+        paths["/reports/" + a] = {"get": {"operationId": "report_" + a, "responses": resp("campaign_" + a)}}
+        paths["/hosts"] = {"get": {"operationId": "host " + a, "responses": resp("base")}}
+        routes = [("GET", "/reports/" + a), ("GET", "/hosts")]
     base_path = None
     if pos == "shape":
         op = lambda oid, params=(): {"operationId": oid, "parameters": [{"name": n, "in": "path", "required": True, "type": "string"} for n in params],
